@@ -1898,6 +1898,17 @@ impl<T: TypeConfig> RaftRoleState for LeaderState<T> {
         self.pending_promotions.retain(|entry| {
             now.saturating_duration_since(entry.ready_since) <= config.stale_learner_threshold
         });
+        // A learner was caught up when it was queued, but it may have waited here (e.g. for a second
+        // learner, so that the voter count stays odd) while the log moved on and it was cut off:
+        // re-check the ones whose progress is known against the current commit index. A learner
+        // that fell behind leaves the queue; the progress check queues it again once it is close.
+        let leader_commit = self.commit_index();
+        let catchup_threshold = ctx.node_config().raft.learner_catchup_threshold;
+        let match_index = &self.match_index;
+        self.pending_promotions.retain(|entry| match match_index.get(&entry.node_id) {
+            Some(m) => leader_commit.saturating_sub(*m) <= catchup_threshold,
+            None => true,
+        });
         // Refresh deadline after potential removals
         self.refresh_stale_deadline(config.stale_learner_threshold);
 
